@@ -70,6 +70,9 @@ func errOfCall(call *ssa.Call) ssa.Value {
 }
 
 func resultOfCall(call *ssa.Call, idx int) ssa.Value {
+	if call == nil || call.Referrers() == nil {
+		return nil
+	}
 	for _, r := range *call.Referrers() {
 		if ex, ok := r.(*ssa.Extract); ok && ex.Index == idx {
 			return ex
